@@ -89,9 +89,9 @@ def step (s d : Nat) : Nat := max s d
 def expectedNdjson : List (Bool × String × List String × String × Nat) :=
   [false, true].flatMap fun b => ["pkg", "doc"].map fun pd => (b, pd, [envEvent false pd], "sys.stdin", St.ndjsonInit)
 
-def expectedNdjsonStep : List (Bool × String × Nat × Nat × List String × Nat) :=
+def expectedNdjsonStep : List ((Bool × String × Nat × Nat) × (List String × Nat)) :=
   [false, true].flatMap fun b => ["pkg", "doc"].flatMap fun pd =>
-    [0, 1, 2, 3].flatMap fun s => [0, 1, 2, 3].map fun d => (b, pd, s, d, [docEvent pd "line" b], step s d)
+    [0, 1, 2, 3].flatMap fun s => [0, 1, 2, 3].map fun d => ((b, pd, s, d), ([docEvent pd "line" b], step s d))
 
 end CliT
 
